@@ -192,6 +192,8 @@ pub enum IntrinsicMode {
     Fault,
     /// observation point with identity effect
     Identity,
+    /// observation point; every scalar the intrinsic declares as written receives this value
+    Havoc(u128),
 }
 
 pub fn exec(op: &il::Operation, s: &mut RState, im: IntrinsicMode) -> Result<Effect, Fault> {
@@ -225,6 +227,17 @@ pub fn exec(op: &il::Operation, s: &mut RState, im: IntrinsicMode) -> Result<Eff
         il::Operation::Intrinsic { intrinsic } => match im {
             IntrinsicMode::Fault => Err(Fault::Intrinsic(intrinsic.mnemonic().to_string())),
             IntrinsicMode::Identity => Ok(Effect::Intrinsic),
+            IntrinsicMode::Havoc(v) => {
+                if let Some(ws) = intrinsic.written_expressions() {
+                    for e in ws {
+                        for sc in e.scalars() {
+                            let key = s.key(sc);
+                            s.scalars.insert(key, Val::new(v, sc.bits()));
+                        }
+                    }
+                }
+                Ok(Effect::Intrinsic)
+            }
         },
         il::Operation::Nop { .. } => Ok(Effect::Nop),
     }
